@@ -49,6 +49,23 @@ func (r *jobReport) fail(sig string, detail interface{}) {
 type dgCase struct {
 	Desc  string
 	Bytes []byte
+	Class string // coarse input class used in violation signatures
+}
+
+// edgeClass names a timeslot by its relation to the acceptance range and the
+// storage window, precisely at the edges and coarsely inside.
+func edgeClass(t, now, off int64) string {
+	a := "inside-range"
+	if d := t - now; d <= -431 || d >= 431 {
+		a = fmt.Sprintf("now%+d", d)
+	}
+	b := "inside-window"
+	if d := t - off; d <= 1 || d >= 4030 {
+		b = fmt.Sprintf("off%+d", d)
+	} else if d == 2015 || d == 2016 {
+		b = "week-boundary"
+	}
+	return a + "," + b
 }
 
 // stdWorld is the standard population used by the datagram checks: devices A
@@ -187,17 +204,26 @@ func c01Alphabet(w *stdWorld, full bool) []dgCase {
 		// reduced alphabet for the clock sweep: own-key reports at the edges
 		for _, t := range tss {
 			for _, p := range []uint64{2, 1} {
-				out = append(out, dgCase{fmt.Sprintf("dev=A signer=A ts=%+d(off%+d) power=%d", t-now, t-off, p), signedReport(1, uint32(t), p, w.A.Priv)})
+				out = append(out, dgCase{fmt.Sprintf("dev=A signer=A ts=%+d(off%+d) power=%d", t-now, t-off, p), signedReport(1, uint32(t), p, w.A.Priv), fmt.Sprintf("own-key/%s/power=%d", edgeClass(t, now, off), p)})
 			}
 		}
 		return out
 	}
 	for _, d := range devs {
 		powers := []uint64{0, 1, 2, 3, d.limit, d.limit + 1, 1<<63 - 1, 1 << 63, 1<<64 - 1}
-		for _, s := range signers {
+		// Foreign signers first, the rightful key last: a slot must still be
+		// untouched when a report that has to be rejected arrives for it.
+		ordered := append([]signer(nil), signers...)
+		sort.SliceStable(ordered, func(i, j int) bool { return ordered[i].name != d.name && ordered[j].name == d.name })
+		for _, s := range ordered {
 			for _, t := range tss {
 				for _, p := range powers {
-					out = append(out, dgCase{fmt.Sprintf("dev=%s signer=%s ts=now%+d(off%+d) power=%s", d.name, s.name, t-now, t-off, powerName(p)), signedReport(d.id, uint32(t), p, s.priv)})
+					cls := "foreign-key"
+					if s.name == d.name {
+						cls = "own-key"
+					}
+					out = append(out, dgCase{fmt.Sprintf("dev=%s signer=%s ts=now%+d(off%+d) power=%s", d.name, s.name, t-now, t-off, powerName(p)), signedReport(d.id, uint32(t), p, s.priv),
+						fmt.Sprintf("%s/dev=%s/%s/power=%s", cls, d.name, edgeClass(t, now, off), powerName(p))})
 				}
 			}
 		}
@@ -219,37 +245,37 @@ func c01Alphabet(w *stdWorld, full bool) []dgCase {
 		for bit := 0; bit < 640; bit++ {
 			m := append([]byte(nil), valid...)
 			m[bit/8] ^= 1 << (bit % 8)
-			out = append(out, dgCase{fmt.Sprintf("bitflip %d of valid B report ts=now%+d", bit, freshTs-now), m})
+			out = append(out, dgCase{fmt.Sprintf("bitflip %d of valid B report ts=now%+d", bit, freshTs-now), m, ""})
 		}
 		for l := 0; l <= 79; l++ {
-			out = append(out, dgCase{fmt.Sprintf("valid B report cut to %d bytes", l), valid[:l]})
+			out = append(out, dgCase{fmt.Sprintf("valid B report cut to %d bytes", l), valid[:l], ""})
 		}
 		// field swaps
 		sw := append([]byte(nil), valid...)
 		copy(sw[0:4], valid[4:8])
 		copy(sw[4:8], valid[0:4])
-		out = append(out, dgCase{"id and timeslot fields swapped", sw})
+		out = append(out, dgCase{"id and timeslot fields swapped", sw, ""})
 		sw2 := append([]byte(nil), valid...)
 		copy(sw2[16:48], valid[48:80])
 		copy(sw2[48:80], valid[16:48])
-		out = append(out, dgCase{"signature halves swapped", sw2})
+		out = append(out, dgCase{"signature halves swapped", sw2, ""})
 		// signature of another valid report of the same device
 		other := signedReport(2, uint32(freshTs), 6, w.B.Priv)
 		sw3 := append([]byte(nil), valid...)
 		copy(sw3[16:], other[16:])
-		out = append(out, dgCase{"signature taken from a different report of the same device", sw3})
+		out = append(out, dgCase{"signature taken from a different report of the same device", sw3, ""})
 		// signing bytes without the type prefix / with another prefix
 		for _, prefix := range []string{"", "EquipmentAuthorization", "equipmentreport"} {
 			sb := append([]byte(prefix), refReportSigningBytes(2, uint32(freshTs), 5)[15:]...)
 			sg := glow.Sign(sb, w.B.Priv)
-			out = append(out, dgCase{fmt.Sprintf("signed over prefix %q", prefix), refReportBytes(2, uint32(freshTs), 5, sg)})
+			out = append(out, dgCase{fmt.Sprintf("signed over prefix %q", prefix), refReportBytes(2, uint32(freshTs), 5, sg), ""})
 		}
 		// extension with an invalid prefix, then with the valid prefix (must be accepted), then lengths 80, 81
 		inval := append(append([]byte(nil), sw...), bytes.Repeat([]byte{0xAB}, 120)...)
-		out = append(out, dgCase{"200 bytes, invalid leading 80", inval})
-		out = append(out, dgCase{"200 bytes, valid leading 80", append(append([]byte(nil), valid...), bytes.Repeat([]byte{0xCD}, 120)...)})
-		out = append(out, dgCase{"81 bytes, valid leading 80 (replay)", append(append([]byte(nil), valid...), 0)})
-		out = append(out, dgCase{"80 bytes exact (replay)", valid})
+		out = append(out, dgCase{"200 bytes, invalid leading 80", inval, ""})
+		out = append(out, dgCase{"200 bytes, valid leading 80", append(append([]byte(nil), valid...), bytes.Repeat([]byte{0xCD}, 120)...), ""})
+		out = append(out, dgCase{"81 bytes, valid leading 80 (replay)", append(append([]byte(nil), valid...), 0), ""})
+		out = append(out, dgCase{"80 bytes exact (replay)", valid, ""})
 	}
 	return out
 }
@@ -306,7 +332,7 @@ func c01RunJob(j c01Job) (rep *jobReport) {
 			}
 			rep.Reasons[why]++
 			if after != before || size != sizeBefore {
-				rep.fail("rejected-datagram-changed-state/"+why, map[string]interface{}{"config": cfg, "datagram": c.Desc, "bytes": fmt.Sprintf("%x", c.Bytes), "model_reason": why, "diff": firstDiff(after, before), "file_growth": size - sizeBefore})
+				rep.fail("rejected-datagram-changed-state/"+why+"/"+c.class(), map[string]interface{}{"config": cfg, "datagram": c.Desc, "bytes": fmt.Sprintf("%x", c.Bytes), "model_reason": why, "diff": firstDiff(after, before), "file_growth": size - sizeBefore})
 				return
 			}
 			continue
@@ -322,7 +348,7 @@ func c01RunJob(j c01Job) (rep *jobReport) {
 			return
 		}
 		if want := w.M.valueKey(); got != want {
-			rep.fail("accepted-datagram-state-differs/"+classify(c.Desc), map[string]interface{}{"config": cfg, "datagram": c.Desc, "bytes": fmt.Sprintf("%x", c.Bytes), "diff": firstDiff(got, want)})
+			rep.fail("accepted-datagram-state-differs/"+c.class(), map[string]interface{}{"config": cfg, "datagram": c.Desc, "bytes": fmt.Sprintf("%x", c.Bytes), "diff": firstDiff(got, want)})
 			return
 		}
 		if size != sizeBefore+80 {
@@ -352,6 +378,13 @@ func c01RunJob(j c01Job) (rep *jobReport) {
 		rep.fail("lock-held", cfg)
 	}
 	return
+}
+
+func (c dgCase) class() string {
+	if c.Class != "" {
+		return c.Class
+	}
+	return classify(c.Desc)
 }
 
 // classify reduces a datagram description to its class for signatures.
